@@ -195,6 +195,14 @@ def differential(cases, zdrv, workdir, files_env=None, timeout_s=20, sig_of=None
     lines = ['%s %s' % (c.id, c.op) for c in cases if c.meta.get('impl') is None]
     t_a = now()
     impl = run_sharded(zdrv, lines, workdir, 'impl', extra_args=[str(timeout_s)], env=files_env) if lines else {}
+    # a HANG is a verdict only if it is reproducible: ops that ran out of time while the machine was busy are run again, alone, one
+    # after the other, with four times the limit (at least 60 s); only a second HANG is reported
+    hung = [l for l in lines if impl.get(l.split(' ', 1)[0], '').startswith('HANG')]
+    if hung:
+        again = run_sharded(zdrv, hung, workdir, 'impl-retry', extra_args=[str(max(60, 4 * timeout_s))], env=files_env, shards=1)
+        for k, v in again.items():
+            if k != '__errors__': impl[k] = v
+        TIMING['hang_retries'] = TIMING.get('hang_retries', 0) + len(hung)
     for c in cases:
         if c.meta.get('impl') is not None: impl[c.id] = c.meta['impl']
     t_b = now()
